@@ -35,7 +35,7 @@ COMPONENTS = {"real": ["ECAgent.Collectors.AgentCollector.collect", "FileCollect
 PROBES = ["empty_record_suppressed", "collector_off_window", "removed_by_higher_priority_same_step",
           "added_by_higher_priority_same_step", "changed_after_collector_turn", "composite_used", "value_zero_recorded",
           "crash_at_flush_boundary", "crash_mid_flush", "real_file", "composite_shared_dict", "empty_string_record", "environment_replaced", "system_removed_next_to_collector", "empty_collection", "empty_flush",
-          "preexisting_content", "two_file_collectors", "buffer_overflow_mid_flush", "falsy_callable_objects_as_functions", "model_with_own_timestep_attribute", "collect_returns_a_value", "write_records_overridden_by_the_user", "composite_result_not_a_dict", "stateful_per_agent_function"]
+          "preexisting_content", "two_file_collectors", "buffer_overflow_mid_flush", "falsy_callable_objects_as_functions", "model_with_own_timestep_attribute", "collect_returns_a_value", "write_records_overridden_by_the_user", "composite_result_not_a_dict", "stateful_per_agent_function", "composite_summarises_the_per_agent_pass"]
 TECHNIQUE = "deterministic simulation: population changing on a seeded schedule inside timesteps vs a replaying reference; simulated disk with crash points and the conservation invariant file + held = collected"
 LEVEL_TEXT = ("Seeded search over population-change schedules, collector windows and disk behaviour; after every timestep the "
               "records equal the reference's and earlier records are untouched; for the file collector, after every disk event "
@@ -94,7 +94,7 @@ def gen_agent_arm(rng, tier):
         c = {"id": "AgentCollector" if i == 0 and rng.random() < 0.5 else f"col{i}",
              "prio": rng.choice([None, None, None, 2, 0, -1, -3]),
              "func": rng.choice(["value", "value", "none_for_neg", "always_none", "listed", "even_only", "count_calls"]),
-             "composite": rng.choice([None, None, "dict", "empty", "none", "shared", "shared", "proxy", "pairs"]), "ts": rng.random() < 0.4}
+             "composite": rng.choice([None, None, "dict", "empty", "none", "shared", "shared", "proxy", "pairs", "tally"]), "ts": rng.random() < 0.4}
         c.update(gen_window(rng, steps))
         collectors.append(c)
     between = script(rng.randint(0, 3))
@@ -169,8 +169,25 @@ class FalsyCall:
         return False
 
 
+def make_tally(inner):
+    """One pass over the agents: the per-agent function keeps a running tally while it is asked about each agent, the
+    composite function then reports (and clears) the tally of this collection."""
+    tally = [0, 0]
+
+    def afn(a):
+        tally[0] += a[Val].v
+        tally[1] += 1
+        return inner(a)
+
+    def comp(agents):
+        d_ = {"#total": tally[0], "#n": tally[1]}
+        tally[0] = tally[1] = 0
+        return d_
+    return afn, comp
+
+
 def composite_ref(kind, pop):
-    if kind in ("dict", "shared", "proxy", "pairs"):
+    if kind in ("dict", "shared", "proxy", "pairs", "tally"):
         return {"#total": sum(pop.values()), "#n": len(pop)}
     if kind == "empty":
         return {}
@@ -315,6 +332,9 @@ def run_agent_arm(sc, ctx):
                     cnt[a.id] = cnt.get(a.id, 0) + 1
                     return [a[Val].v, cnt[a.id]]
                 ctx.probe("stateful_per_agent_function")
+            if s["composite"] == "tally":
+                afn, comp = make_tally(afn)
+                ctx.probe("composite_summarises_the_per_agent_pass")
             if sc.get("falsy_callables"):
                 ctx.probe("falsy_callable_objects_as_functions")
                 afn = FalsyCall(afn, "agent")
